@@ -62,6 +62,8 @@ def run(ctx, col, tier):
     repo = ctx.repo
     from ..rules import stateless as _stateless_memo
     _stateless_memo.run_memo(ctx, col)
+    from ..rules import rootpos as _rootpos
+    _rootpos.run(ctx, col, ('swcgeom.core.tree', 'swcgeom.core.swc_utils.base'))
     col.rule("R-CG", "no strong call-graph cycle is reachable from the traversal entry points "
              "(callbacks are user code): stack depth of the kernel is a constant", floor=3)
     col.rule("R-FRAME", "explicit-stack DFS discipline of the kernel: LIFO frames, leave frame "
@@ -151,7 +153,19 @@ def frame_discipline(ctx, col, k):
             val = norm_src(app.args[0]) if app.args else None
             if keyname in (a, b) and val in (a, b):
                 ok = (keyname == b and val == a)
-        if ok is None:
+        sliced = None
+        if isinstance(loop, ast.For) and isinstance(loop.iter, ast.Call) and dotted(loop.iter.func) == "zip":
+            # the index must be built from ALL rows: a slice of the id / parent columns (rows from the start node on, rows up to ...) leaves out
+            # nodes whenever the numbering does not follow the tree (a descendant stored in front of the start node)
+            for a_ in loop.iter.args:
+                for x_ in ast.walk(a_):
+                    if isinstance(x_, ast.Subscript) and isinstance(x_.slice, ast.Slice) and (x_.slice.lower is not None or x_.slice.upper is not None):
+                        sliced = x_
+        if sliced is not None:
+            col.bad(R, q, k.loc(loop), "the children index is built from every row of the table",
+                    f"`for {norm_src(loop.target)} in {norm_src(loop.iter)}` reads only the rows `{norm_src(sliced)}`: a node stored outside that range is never "
+                    f"indexed, so a traversal silently skips it and everything below it unless every parent is stored before its children", stmt="map-rows", definite=True)
+        elif ok is None:
             col.unresolved(R, q, k.loc(n), "children map is keyed by the parent id and lists the child ids", "loop shape not recognised", stmt="map-roles")
         else:
             col.check(ok, R, q, k.loc(n), "children map is keyed by the parent id and lists the child ids",
